@@ -10,7 +10,7 @@ PROP = Property(
     coq_targets=["Extract/Extract_Wire.vo"],
     engines=[Engine(name="wire", c_srcs=["harness/wire_drv.c"],
                     ml_srcs=["ocaml/gen/WireModel.ml", "ocaml/wire_drv.ml"],
-                    gen=dnsgen.gen_c04, n_quick=12000, n_thorough=150000, sep=None)],
+                    gen=dnsgen.gen_c04, n_quick=12000, n_thorough=150000, sep=None, timeout=600)],
     trusted_base=["Coq 8.16.1 kernel + coqc (vm_compute; no native_compute)",
                   "extraction (ExtrOcamlBasic only, no Extract Constant) + OCaml 4.13.1",
                   "coq/Wire/RefDecode.v + Escape.v: the reference decoder, written from RFC 1035/2535/2782/3403/3596/6698/6891/7553/8659/9460 (it IS the specification; reviewed by reading, tied to nothing)",
